@@ -1,7 +1,9 @@
 ------------------------------- MODULE T_C13 -------------------------------
 (* C->S judge for C13 (canonical simplifier output).  Record:               *)
 (*  [id, e, v (variant or [k |-> "none"]), runs: one entry per hash seed:   *)
-(*      [st, se, sse, sv (trees), txt (rendered strings <<str se, str sv>>)]]*)
+(*      [st, se, sse, sv (trees), txt (rendered strings <<str se, str sv>>),  *)
+(*       she, she2, shv: results when e and the variant are built over shared *)
+(*       operand objects and e is simplified twice, then the variant]]        *)
 (* Clauses: idempotent (simp(fresh(simp e)) = simp e), order-insensitive    *)
 (* (simp(variant) = simp(e) for an AC-equivalent variant), seed-independent *)
 (* (trees and strings identical for every PYTHONHASHSEED).                  *)
@@ -13,6 +15,8 @@ Verdict(r) ==
    ELSE IF r.v.k # "none" /\ ~ACEquiv(r.e, r.v) THEN <<[clause |-> "gen.variant_not_equivalent"]>>
    ELSE IF r1.sse # r1.se THEN <<[clause |-> "C13.idempotent"]>>
    ELSE IF r.v.k # "none" /\ r1.sv # r1.se THEN <<[clause |-> "C13.order_insensitive"]>>
+   ELSE IF r1.she # r1.se \/ r1.she2 # r1.se THEN <<[clause |-> "C13.shared_objects.repeatable"]>>
+   ELSE IF r.v.k # "none" /\ r1.shv # r1.se THEN <<[clause |-> "C13.shared_objects.order_insensitive"]>>
    ELSE IF \E j \in 2..Len(r.runs) : r.runs[j].se # r1.se \/ r.runs[j].sv # r1.sv \/ r.runs[j].txt # r1.txt
         THEN <<[clause |-> "C13.seed_independent"]>>
    ELSE <<>>
